@@ -162,6 +162,208 @@ def _include_casts(inc):
     return out
 
 
+# ---------------------------------------------------------------- statement-level facts
+
+def _strip_comments(t):
+    return re.sub(r"/\*.*?\*/", " ", t, flags=re.S)
+
+
+def _func_body(text, header_regex):
+    m = re.search(header_regex + r"\s*\{\n(.*?)^\}", text, re.M | re.S)
+    if not m:
+        raise TranslateError("function not found: %s" % header_regex)
+    return _strip_comments(m.group(1))
+
+
+def _match_brace(t, i):
+    """t[i] == '{' -> index just after the matching '}'"""
+    depth = 0
+    for j in range(i, len(t)):
+        if t[j] == "{":
+            depth += 1
+        elif t[j] == "}":
+            depth -= 1
+            if depth == 0:
+                return j + 1
+    raise TranslateError("unbalanced braces")
+
+
+_TARGET = {"buf": "TBuf", "data": "TData"}
+
+
+def _atoms(cond):
+    out = []
+    for a in [x.strip() for x in cond.split("&&")]:
+        a = _strip_parens(a)
+        if a == "ct->ct_flags & CT_IS_BOOL":
+            out.append("AIsBool")
+        elif a == "value > 1ULL":
+            out.append("AGt1")
+        else:
+            m = re.match(r"^value != read_raw_(signed|unsigned)_data\((buf|data), ct->ct_size\)$", a)
+            if not m:
+                raise TranslateError("unknown overflow condition %r" % a)
+            out.append("(ANeqRead %s %s)" % ("true" if m.group(1) == "signed" else "false", _TARGET[m.group(2)]))
+    return "[%s]" % "; ".join(out)
+
+
+def _store_stmts(t, guard="GAlways"):
+    """statements of an integer branch of convert_from_object -> list of '(guard, sstmt)' terms"""
+    t = _ws(t)
+    out = []
+    while t:
+        m = re.match(r"^((?:unsigned )?PY_LONG_LONG) value = (_my_PyLong_As\w+)\(init(?:, (\d+))?\); ?", t)
+        if m:
+            if m.group(2) == "_my_PyLong_AsLongLong" and m.group(3) is None and not m.group(1).startswith("unsigned"):
+                c = "ConvLL"
+            elif m.group(2) == "_my_PyLong_AsUnsignedLongLong" and m.group(3) is not None and m.group(1).startswith("unsigned"):
+                c = "(ConvULL %s)" % ("true" if int(m.group(3)) else "false")
+            else:
+                raise TranslateError("conversion %r" % m.group(0))
+            out.append("(%s, SConv %s)" % (guard, c))
+            t = t[m.end():]
+            continue
+        m = re.match(r"^if \(value == (?:-1|\(unsigned PY_LONG_LONG\)-1) && PyErr_Occurred\(\)\) return -1; ?", t)
+        if m:
+            out.append("(%s, SErrCheck)" % guard)
+            t = t[m.end():]
+            continue
+        m = re.match(r"^write_raw_integer_data\((buf|data), value, ct->ct_size\); ?", t)
+        if m:
+            out.append("(%s, SWrite %s)" % (guard, _TARGET[m.group(1)]))
+            t = t[m.end():]
+            continue
+        m = re.match(r"^return 0; ?", t)
+        if m:
+            out.append("(%s, SReturn)" % guard)
+            t = t[m.end():]
+            continue
+        m = re.match(r"^if \(ct->ct_flags & CT_IS_BOOL\) \{", t)
+        if m and guard == "GAlways":
+            e = _match_brace(t, m.end() - 1)
+            out += _store_stmts(t[m.end():e - 1], "GBool")
+            t = t[e:].strip()
+            m2 = re.match(r"^else \{", t)
+            if m2:
+                e = _match_brace(t, m2.end() - 1)
+                out += _store_stmts(t[m2.end():e - 1], "GNotBool")
+                t = t[e:].strip()
+            continue
+        m = re.match(r"^if \((.*?)\) goto overflow; ?", t)
+        if m:
+            out.append("(%s, SOverflowIf %s)" % (guard, _atoms(m.group(1))))
+            t = t[m.end():]
+            continue
+        raise TranslateError("convert_from_object integer branch: unknown statement at %r" % t[:80])
+    return out
+
+
+def _store_branches(text):
+    body = _func_body(text, r"^convert_from_object\(char \*data, CTypeDescrObject \*ct, PyObject \*init\)")
+    res = {}
+    for flag in ("SIGNED", "UNSIGNED"):
+        m = re.search(r"if \(ct->ct_flags & CT_PRIMITIVE_%s\) \{" % flag, body)
+        if not m:
+            raise TranslateError("CT_PRIMITIVE_%s branch not found" % flag)
+        e = _match_brace(body, m.end() - 1)
+        res[flag] = _store_stmts(body[m.end():e - 1])
+    if not re.search(r"overflow:\s*return _convert_overflow\(init, ct->ct_name\);", body):
+        raise TranslateError("overflow label does not call _convert_overflow")
+    ov = _func_body(text, r"^static int _convert_overflow\(PyObject \*init, const char \*ct_name\)")
+    if "PyErr_Format(PyExc_OverflowError" not in ov:
+        raise TranslateError("_convert_overflow does not raise OverflowError")
+    return res
+
+
+def _fcb_expr(e):
+    e = e.replace("(Py_ssize_t)", "(PY_LONG_LONG)")
+    try:
+        return c03_cexpr.parse(e)
+    except CExprError as ex:
+        raise TranslateError("fficallback expression %r: %s" % (e, ex))
+
+
+def _fcb_stmts(t):
+    t = _ws(t)
+    out = []
+    while t:
+        m = re.match(r"^PY_LONG_LONG [\w, ]+; ?", t)
+        if m:
+            t = t[m.end():]
+            continue
+        m = re.match(r"^if \(convert_from_object\(result, ctype, pyobj\) < 0\) return -1; ?", t)
+        if m:
+            out.append("FConvCheck")
+            t = t[m.end():]
+            continue
+        m = re.match(r"^value = _my_PyLong_AsLongLong\(pyobj\); ?", t)
+        if m:
+            out.append("(FConv ConvLL)")
+            t = t[m.end():]
+            continue
+        m = re.match(r"^if \(value == -1 && PyErr_Occurred\(\)\) return -1; ?", t)
+        if m:
+            out.append("FErrCheck")
+            t = t[m.end():]
+            continue
+        m = re.match(r"^write_raw_integer_data\(result, value, sizeof\(ffi_arg\)\); ?", t)
+        if m:
+            out.append("FWriteFull")
+            t = t[m.end():]
+            continue
+        m = re.match(r"^memset\(result, 0, sizeof\(ffi_arg\)\); ?", t)
+        if m:
+            out.append("FMemset")
+            t = t[m.end():]
+            continue
+        m = re.match(r"^return 0; ?", t)
+        if m:
+            out.append("FReturn")
+            t = t[m.end():]
+            continue
+        m = re.match(r"^if \((.*?)\) return _convert_overflow\(pyobj, ctype->ct_name\); ?", t)
+        if m:
+            out.append("(FOverflowIf %s)" % _fcb_expr(m.group(1)))
+            t = t[m.end():]
+            continue
+        m = re.match(r"^(\w+) = ([^;]*); ?", t)
+        if m:
+            out.append('(FAssign "%s" %s)' % (m.group(1), _fcb_expr(m.group(2))))
+            t = t[m.end():]
+            continue
+        raise TranslateError("convert_from_object_fficallback: unknown statement at %r" % t[:80])
+    return out
+
+
+def _fficallback(text):
+    body = _func_body(text, r"^static int convert_from_object_fficallback\(char \*result,\s*CTypeDescrObject \*ctype,"
+                            r"\s*PyObject \*pyobj,\s*int encode_result_for_libffi\)")
+    body = re.sub(r"#ifdef WORDS_BIGENDIAN\n.*?#endif\n", "", body, flags=re.S)
+    b = _ws(body)
+    m = re.match(r"^if \(ctype->ct_size < \(Py_ssize_t\)sizeof\(ffi_arg\)\) \{ if \(ctype->ct_flags & CT_VOID\) \{", b)
+    if not m:
+        raise TranslateError("convert_from_object_fficallback: outer shape")
+    e = _match_brace(b, m.end() - 1)
+    rest = b[e:].strip()
+    m = re.match(r"^if \(!encode_result_for_libffi\) goto skip; if \(ctype->ct_flags & CT_PRIMITIVE_SIGNED\) \{", rest)
+    if not m:
+        raise TranslateError("convert_from_object_fficallback: signed branch shape")
+    e = _match_brace(rest, m.end() - 1)
+    signed = _fcb_stmts(rest[m.end():e - 1])
+    rest = rest[e:].strip()
+    m = re.match(r"^else if \(ctype->ct_flags & \(CT_PRIMITIVE_CHAR \| CT_PRIMITIVE_SIGNED \| CT_PRIMITIVE_UNSIGNED \| "
+                 r"CT_POINTER \| CT_FUNCTIONPTR\)\) \{", rest)
+    if not m:
+        raise TranslateError("convert_from_object_fficallback: zero-extension branch shape")
+    e = _match_brace(rest, m.end() - 1)
+    unsigned = _fcb_stmts(rest[m.end():e - 1])
+    rest = rest[e:].strip()
+    if rest != "} skip: return convert_from_object(result, ctype, pyobj);":
+        raise TranslateError("convert_from_object_fficallback: tail %r" % rest[:100])
+    return signed, unsigned
+
+
+
 def translate(repo):
     text = open(os.path.join(repo, "src", "c", "_cffi_backend.c")).read()
     inc = open(os.path.join(repo, "src", "cffi", "_cffi_include.h")).read()
@@ -172,17 +374,16 @@ def translate(repo):
     exports = _exports(text)
     arms = _dispatch(inc)
     casts = _include_casts(inc)
+    store = _store_branches(text)
+    fcb_signed, fcb_unsigned = _fficallback(text)
     L = []
     L.append("(* GENERATED by tools/props/c03_regen.py from src/c/_cffi_backend.c and src/cffi/_cffi_include.h.")
     L.append("   Do not edit: regenerated and re-checked on every run of ./check C03. *)")
     L.append("From Coq Require Import ZArith String List.")
-    L.append("From Cffi Require Import C03.CExpr.")
+    L.append("From Cffi Require Import C03.CExpr C03.IR.")
     L.append("Import ListNotations.")
     L.append("Open Scope Z_scope.")
     L.append("Open Scope string_scope.")
-    L.append("")
-    L.append("(* which _my_PyLong_As* helper produces `tmp` (ConvULL carries the `strict` argument) *)")
-    L.append("Inductive conv_fn := ConvLL | ConvULL (strict : bool).")
     L.append("")
     L.append("(* #define _cffi_to_c_SIGNED_FN(RETURNTYPE, SIZE): type of tmp, conversion, the `tmp OP bound` tests joined by || *)")
     L.append("Definition signed_tmp_type : cty := %s." % sty)
@@ -205,6 +406,17 @@ def translate(repo):
     L.append("")
     L.append("(* static void *cffi_exports[] of _cffi_backend.c, in order *)")
     L.append("Definition backend_exports : list string :=\n  [%s]." % ";\n   ".join('"%s"' % n for n in exports))
+    L.append("")
+    L.append("(* convert_from_object: the statements of the CT_PRIMITIVE_SIGNED branch, in order *)")
+    L.append("Definition store_signed_prog : list (guard * sstmt) :=\n  [%s]." % ";\n   ".join(store["SIGNED"]))
+    L.append("(* ... and of the CT_PRIMITIVE_UNSIGNED branch (the CT_IS_BOOL if/else flattened into guards) *)")
+    L.append("Definition store_unsigned_prog : list (guard * sstmt) :=\n  [%s]." % ";\n   ".join(store["UNSIGNED"]))
+    L.append("")
+    L.append("(* convert_from_object_fficallback, ct_size < sizeof(ffi_arg) && encode_result_for_libffi:")
+    L.append("   the CT_PRIMITIVE_SIGNED block, and the zero-extension block (which then falls through to")
+    L.append("   `skip: return convert_from_object(result, ctype, pyobj);`) *)")
+    L.append("Definition fcb_signed_prog : list fstmt :=\n  [%s]." % ";\n   ".join(fcb_signed))
+    L.append("Definition fcb_zeroext_prog : list fstmt :=\n  [%s]." % ";\n   ".join(fcb_unsigned))
     return "\n".join(L) + "\n"
 
 
